@@ -643,6 +643,9 @@ func replayOnRealCode(e *Engine, o *Obligation) map[string]interface{} {
 		rec["reason"] = "obligation is not attached to a function contract (table / frame obligation)"
 		return rec
 	}
+	if strings.Contains(o.name, "/safety.") && ct.pkg == "render" && (strings.Contains(ct.fnName, "STL") || ct.fnName == "parseFloats") {
+		return stlLoaderReplay(e, o)
+	}
 	if !strings.Contains(o.name, "/post.") {
 		rec["reason"] = "only postcondition obligations have a generated replay"
 		return rec
@@ -922,4 +925,83 @@ func runOverlayTest(e *Engine, relDir, src, runPat string, race bool) (string, s
 	c.Stderr = &out
 	c.Run()
 	return out.String(), "cd " + e.repo + " && go " + strings.Join(args, " ")
+}
+
+// stlLoaderReplay: for a refuted safety obligation of the STL loader build the
+// file the model describes (number of vertex lines for the ASCII path, header
+// count for the binary path) and call LoadSTL on it; a panic is the failure.
+func stlLoaderReplay(e *Engine, o *Obligation) map[string]interface{} {
+	rec := map[string]interface{}{"reproduced": false}
+	nverts := -1
+	count := -1
+	for k, v := range o.res.model {
+		f, ok := smtValueToFloat(v)
+		if !ok {
+			continue
+		}
+		if strings.Contains(k, "$v$len") {
+			nverts = int(f)
+		}
+		if strings.Contains(k, "Count") {
+			count = int(f)
+		}
+	}
+	if nverts < 0 {
+		nverts = 1
+	}
+	if nverts > 10000 {
+		nverts = nverts%3 + 3
+	}
+	rec["model_vertex_lines"] = nverts
+	rec["model_header_count"] = count
+	src := fmt.Sprintf(`package render
+
+import (
+	"fmt"
+	"os"
+	"path/filepath"
+	"strings"
+	"testing"
+)
+
+func TestVerifReplay(t *testing.T) {
+	dir := t.TempDir()
+	try := func(name string, content []byte) {
+		path := filepath.Join(dir, name)
+		os.WriteFile(path, content, 0o644)
+		func() {
+			defer func() {
+				if r := recover(); r != nil {
+					fmt.Printf("REPLAY-PANIC %%s: %%v\n", name, r)
+				}
+			}()
+			m, err := LoadSTL(path)
+			fmt.Printf("REPLAY-RETURNED %%s: %%d triangles, err=%%v\n", name, len(m), err)
+		}()
+	}
+	var sb strings.Builder
+	sb.WriteString("solid model\n")
+	for i := 0; i < %d; i++ {
+		fmt.Fprintf(&sb, "  vertex %%d.0 1.0 2.0\n", i)
+	}
+	sb.WriteString("endsolid model\n")
+	for sb.Len() < 100 {
+		sb.WriteString("\n")
+	}
+	try("model.stl", []byte(sb.String()))
+}
+`, nverts)
+	rec["test_source"] = src
+	out, cmdline := runOverlayTest(e, "render", src, "^TestVerifReplay$", false)
+	rec["command"] = cmdline
+	if len(out) > 2000 {
+		out = out[:2000]
+	}
+	rec["output"] = out
+	if strings.Contains(out, "REPLAY-PANIC") {
+		rec["reproduced"] = true
+	} else {
+		rec["reason"] = "LoadSTL returned normally on the file built from the model"
+	}
+	return rec
 }
